@@ -7,6 +7,7 @@ Statements
   ["unit", acc, [vref per field], launch_vref|None]   full-field accfg.setup + launch + await
   ["for", {"lb": ["c", v]|["a"], "step": ["c", v]|["a"], "ub": ["a"]|["c", trips]}, body, [init vrefs], [yield vrefs]]
   ["if", ["p", k] | ["cmp", pred, vref, vref], then, else]
+  ["unit", acc, value refs, launch seed, [order seed, keep]]   optional 5th element: partial setup in another field order (C04 only)
   ["call", annotated, k]
   ["pure", opname, vref, vref]
 A vref is an int taken modulo the number of values visible at that point (arguments, constants, induction
@@ -269,9 +270,20 @@ def build(recipe, ty=None, extra_module_ops="", func_name="main") -> Built:
         for s in stmts:
             k = s[0]
             if k == "unit":
-                _, a, vrs, launch = s
+                _, a, vrs, launch = s[:4]
                 name, fields = accs[a % len(accs)][:2]
                 ops = [vref(vrs[j % len(vrs)] if vrs else 0, vals) for j in range(len(fields))]
+                if len(s) > 4 and s[4] is not None and len(fields) > 1:
+                    # partial setup in another field order (C04 only): rotate by s[4][0], reverse if odd, keep the first s[4][1] % n + 1
+                    idxs = list(range(len(fields)))
+                    rot = s[4][0] % len(idxs)
+                    idxs = idxs[rot:] + idxs[:rot]
+                    if s[4][0] & 1:
+                        idxs.reverse()
+                    idxs = idxs[: s[4][1] % len(idxs) + 1]
+                    fields = [fields[j] for j in idxs]
+                    ops = [ops[j] for j in idxs]
+                    b.features.add("partial_unit")
                 st_ = fresh("s")
                 names = ", ".join(f'"{f}"' for f in fields)
                 out.append(f'{pad}{st_} = "accfg.setup"({", ".join(ops)}) <{{accelerator = "{name}", operandSegmentSizes = array<i32: {len(ops)}, 0>, '
